@@ -1,1 +1,181 @@
-import sys; print("selftest placeholder ok")
+"""Concrete differential self-test of the engine (MANIFEST.setup_cmd, ~15 s).
+
+The shadow-loaded library (AST pass + stubs + proxies, no symbolic values) is run over the repository's own test
+vectors and must agree with the plain import of /repo on every one of them (Serval-style validation of the
+interpreter with the existing suite).  Any difference is an engine error (exit 2).
+"""
+import json
+import os
+import sys
+import time
+
+VERIF = os.path.dirname(os.path.dirname(os.path.abspath(__file__)))
+sys.path.insert(0, VERIF)
+from symx import loader, vtypes  # noqa: E402
+
+REPO = loader.REPO
+sys.path.insert(0, REPO)
+DATA = os.path.join(REPO, 'bitcoin', 'tests', 'data')
+
+
+def main():
+    t0 = time.time()
+    import bitcoin
+    import bitcoin.core as rc
+    import bitcoin.core.script as rs
+    import bitcoin.core.scripteval as rse
+    import bitcoin.base58 as rb58
+    import bitcoin.segwit_addr as rsa
+    import bitcoin.bloom as rbl
+    import bitcoin.core.serialize as rser
+    import bitcoin.wallet as rw
+    from bitcoin.tests import test_scripteval as tse
+    L = loader.Lib()
+    sc, ss, sse = L['bitcoin.core'], L['bitcoin.core.script'], L['bitcoin.core.scripteval']
+    VB = vtypes.VBytes
+    n = dict(cases=0)
+    bad = []
+
+    def same(tag, a, b):
+        n['cases'] += 1
+        n[tag.split(':')[0]] = n.get(tag.split(':')[0], 0) + 1
+        if a != b:
+            bad.append((tag, repr(a)[:120], repr(b)[:120]))
+
+    def raw(x):
+        return bytes(x._d) if isinstance(x, (vtypes.VBytes, vtypes.VByteArray)) else x
+
+    # transactions: (de)serialisation, identifiers, script verification
+    for name in ('tx_valid.json', 'tx_invalid.json'):
+        for case in json.load(open(os.path.join(DATA, name))):
+            if len(case) == 1:
+                continue
+            prevouts, txhex, flags = case[0], case[1], case[2]
+            txb = bytes.fromhex(txhex)
+            try:
+                rt = rc.CTransaction.deserialize(txb)
+            except Exception as e:
+                rt = type(e).__name__
+            try:
+                st = sc.CTransaction.deserialize(VB(txb))
+            except Exception as e:
+                st = type(e).__name__
+            if isinstance(rt, str) or isinstance(st, str):
+                same(name + ':deser', rt if isinstance(rt, str) else 'ok', st if isinstance(st, str) else 'ok')
+                continue
+            same(name + ':ser', rt.serialize(), raw(st.serialize()))
+            same(name + ':txid', rt.GetTxid(), raw(st.GetTxid()))
+            pm = {}
+            for po in prevouts:
+                pm[(po[0], po[1] & 0xffffffff)] = tse.parse_script(po[2])
+            fl = ['P2SH'] if flags else []
+            rfl = set(rse.SCRIPT_VERIFY_FLAGS_BY_NAME[f] for f in fl)
+            sfl = set(sse.SCRIPT_VERIFY_FLAGS_BY_NAME[f] for f in fl)
+            same(name + ':checktx', _safe(lambda: rc.CheckTransaction(rt)), _safe(lambda: sc.CheckTransaction(st)))
+            for i, txin in enumerate(rt.vin):
+                spk = pm.get((rc.b2lx(txin.prevout.hash), txin.prevout.n))
+                if spk is None:
+                    continue
+                try:
+                    rse.VerifyScript(txin.scriptSig, spk, rt, i, flags=rfl)
+                    r1 = 'ok'
+                except rc.ValidationError as e:
+                    r1 = 'ValidationError'
+                except Exception as e:
+                    r1 = type(e).__name__
+                try:
+                    sse.VerifyScript(st.vin[i].scriptSig, ss.CScript(VB(bytes(spk))), st, i, flags=sfl)
+                    r2 = 'ok'
+                except sc.ValidationError as e:
+                    r2 = 'ValidationError'
+                except Exception as e:
+                    r2 = type(e).__name__
+                same(name + ':verify', r1, r2)
+    # scripts
+    dummy_r = rc.CTransaction([rc.CTxIn()], [rc.CTxOut(0, rs.CScript())])
+    dummy_s = sc.CTransaction([sc.CTxIn()], [sc.CTxOut(0, ss.CScript())])
+    for name in ('script_valid.json', 'script_invalid.json'):
+        for (ssig, spk, flagset, comment, case) in tse.load_test_vectors(name):
+            names = [k for k, v in rse.SCRIPT_VERIFY_FLAGS_BY_NAME.items() if v in flagset]
+            sfl = set(sse.SCRIPT_VERIFY_FLAGS_BY_NAME[k] for k in names)
+            try:
+                rse.VerifyScript(ssig, spk, dummy_r, 0, flags=flagset)
+                r1 = 'ok'
+            except rc.ValidationError:
+                r1 = 'ValidationError'
+            except Exception as e:
+                r1 = type(e).__name__
+            try:
+                sse.VerifyScript(ss.CScript(VB(bytes(ssig))), ss.CScript(VB(bytes(spk))), dummy_s, 0, flags=sfl)
+                r2 = 'ok'
+            except sc.ValidationError:
+                r2 = 'ValidationError'
+            except Exception as e:
+                r2 = type(e).__name__
+            same(name, r1, r2)
+            same(name + ':sigops', _safe(lambda: spk.GetSigOpCount(True)), _safe(lambda: ss.CScript(VB(bytes(spk))).GetSigOpCount(True)))
+    # base58 / bech32
+    sb58, ssa = L['bitcoin.base58'], L['bitcoin.segwit_addr']
+    for hexs, text in json.load(open(os.path.join(DATA, 'base58_encode_decode.json'))):
+        same('b58enc', rb58.encode(bytes.fromhex(hexs)), str(sb58.encode(VB(bytes.fromhex(hexs)))))
+        same('b58dec', rb58.decode(text), raw(sb58.decode(text)))
+    for hexs, text in json.load(open(os.path.join(DATA, 'bech32_encode_decode.json'))):
+        for hrp in ('bc', 'tb'):
+            a = rsa.decode(hrp, text)
+            b = ssa.decode(hrp, text)
+            same('bech32dec', (a[0], None if a[1] is None else list(a[1])), (b[0], None if b[1] is None else list(b[1])))
+    for text in json.load(open(os.path.join(DATA, 'bech32_invalid.json'))):
+        t = text if isinstance(text, str) else text[0]
+        same('bech32inv', rsa.decode('bc', t), tuple(ssa.decode('bc', t)))
+    # blocks
+    for name in ('checkblock_valid.json', 'checkblock_invalid.json'):
+        for case in json.load(open(os.path.join(DATA, name))):
+            if len(case) != 5:
+                continue
+            (comment, fHeader, fCheckPoW, cur_time, blkhex) = case
+            bb = bytes.fromhex(blkhex)
+            if fHeader:
+                rbk, sbk = rc.CBlockHeader.deserialize(bb), sc.CBlockHeader.deserialize(VB(bb))
+                same(name + ':hash', rbk.GetHash(), raw(sbk.GetHash()))
+                same(name + ':check', _safe(lambda: rc.CheckBlockHeader(rbk, fCheckPoW=fCheckPoW, cur_time=cur_time)),
+                     _safe(lambda: sc.CheckBlockHeader(sbk, fCheckPoW=fCheckPoW, cur_time=cur_time)))
+            else:
+                rbk, sbk = rc.CBlock.deserialize(bb), sc.CBlock.deserialize(VB(bb))
+                same(name + ':hash', rbk.GetHash(), raw(sbk.GetHash()))
+                same(name + ':root', rbk.calc_merkle_root(), raw(sbk.calc_merkle_root()))
+                same(name + ':ser', rbk.serialize(), raw(sbk.serialize()))
+                same(name + ':check', _safe(lambda: rc.CheckBlock(rbk, fCheckPoW=fCheckPoW, cur_time=cur_time)),
+                     _safe(lambda: sc.CheckBlock(sbk, fCheckPoW=fCheckPoW, cur_time=cur_time)))
+    # bloom / compact / misc kernels on fixed values
+    sbl, sser = L['bitcoin.bloom'], L['bitcoin.core.serialize']
+    for seed, data in ((0, b''), (0xFBA4C795, b'\x00'), (1, b'abc'), (0xffffffff, bytes(range(40)))):
+        same('murmur', rbl.MurmurHash3(seed, data), sbl.MurmurHash3(seed, VB(data)))
+    for c in (0, 0x01003456, 0x04923456, 0x1d00ffff, 0x207fffff, 0xff123456, 0x1c800001):
+        same('compact', rser.uint256_from_compact(c), sser.uint256_from_compact(c))
+    for v in (0, 0x12, 0x80, 0x92340000, 2 ** 255, 2 ** 256 - 1):
+        same('compact_enc', rser.compact_from_uint256(v), sser.compact_from_uint256(v))
+    srip = L['bitcoin.core.contrib.ripemd160']
+    import bitcoin.core.contrib.ripemd160 as rrip
+    for m in (b'', b'abc', bytes(range(130))):
+        same('ripemd160', rrip.ripemd160(m), raw(srip.ripemd160(VB(m))))
+    # addresses
+    sw = L['bitcoin.wallet']
+    for a in ('1C7zdTfnkzmr13HfA2vNm5SJYRK6nEKyq8', '37k7toV1Nv4DfmQbmZ8KuZDQCYK9x5KpzP', 'bc1qw508d6qejxtdg4y5r3zarvary0c5xw7kv8f3t4'):
+        same('addr', bytes(rw.CBitcoinAddress(a).to_scriptPubKey()), raw(sw.CBitcoinAddress(a).to_scriptPubKey()))
+    dt = time.time() - t0
+    print('symx selftest: %d cases compared between the shadow-loaded and the plain library in %.1fs, %d differences' % (n['cases'], dt, len(bad)))
+    print('  by family:', {k: v for k, v in n.items() if k != 'cases'})
+    for b in bad[:20]:
+        print('  DIFF', b)
+    sys.exit(2 if bad else 0)
+
+
+def _safe(f):
+    try:
+        return f()
+    except Exception as e:
+        return type(e).__name__
+
+
+if __name__ == '__main__':
+    main()
